@@ -131,6 +131,8 @@ def opRdSystem : Handler := fun j => do
       | some v => do pure (.ok (← getIntList v))
       | none => pure (systemChem net spc)
     match (match st, ch with
+      | _, _ => if !spaceAccepted net spc then (.error .badValue : Res System) else
+        match st, ch with
       | .error e, _ => (.error e : Res System)
       | _, .error e => .error e
       | .ok a, .ok b => .ok ⟨net, spc, sysUnits, a, b⟩) with
